@@ -19,6 +19,7 @@ import (
 	"errors"
 	"io"
 	"log"
+	"os"
 	"runtime"
 	"sort"
 	"strconv"
@@ -1402,6 +1403,20 @@ func nontrivial(in Sx) bool {
 	return calls > 0
 }
 
+// VERIF_FOCUS_KINDS=kind1,kind2 (set by bin/check's extended search): spend the run on these classes
+func wantKind(kind string) bool {
+	f := os.Getenv("VERIF_FOCUS_KINDS")
+	if f == "" {
+		return true
+	}
+	for _, k := range strings.Split(f, ",") {
+		if k == kind {
+			return true
+		}
+	}
+	return false
+}
+
 func gen(a Args, out *Out) {
 	rng := NewRng(a.Seed)
 	// the reaper scenario waits for a real 3 s tick: it runs alongside everything else
@@ -1414,6 +1429,9 @@ func gen(a Args, out *Out) {
 		nhist, nwrap, nfull, nstress = 8000, 30, 4, 300
 	}
 	emit := func(kind string, in Sx) {
+		if !wantKind(kind) {
+			return
+		}
 		obs := run(in)
 		// an inconclusive history (too slow, or a blocking caller neither returned nor parked within the
 		// settle budget) is run again, twice at most; what is still inconclusive is recorded, never alarmed
@@ -1476,7 +1494,9 @@ func gen(a Args, out *Out) {
 	}
 	for i := 0; i < nfull; i++ {
 		in := List(Uint(uint64(r3.Intn(65536))))
-		out.Case("full", true, in, run(in))
+		if wantKind("full") {
+			out.Case("full", true, in, run(in))
+		}
 	}
 	r6, r7 := rng.Fork(), rng.Fork()
 	for i := 0; i < nhist/8; i++ {
@@ -1484,16 +1504,23 @@ func gen(a Args, out *Out) {
 	}
 	for i := 0; i < nfull; i++ {
 		in := Ints(3, int64(60*nfull), int64(r7.Intn(1<<30)))
-		out.Case("sweeprace", true, in, run(in))
+		if wantKind("sweeprace") {
+			out.Case("sweeprace", true, in, run(in))
+		}
 	}
 	out.CountN("sweeprace:call B was given A's number", int(atomic.LoadInt64(&sweepRaceReused)))
 	for i := 0; i < nfull; i++ {
 		in := Ints(6, 6, int64(r7.Intn(1<<30)))
-		out.Case("ttl", true, in, run(in))
+		if wantKind("ttl") {
+			out.Case("ttl", true, in, run(in))
+		}
 	}
 	r4 := rng.Fork()
 	for i := 0; i < nstress; i++ {
 		in := Ints(2, int64(r4.Range(2, 8)), int64(r4.Range(5, 120)), int64(r4.Intn(1<<30)))
+		if !wantKind("stress") {
+			continue
+		}
 		obs := run(in)
 		out.Case("stress", true, in, obs)
 		if obs.At(1).AsInt() == 9 {
